@@ -178,7 +178,7 @@ var c07DirShapes = map[string]c07Shape{
 	"secresponsebodyaccess":          c07OnOff,
 	"secrxprefilter":                 c07OnOff,
 	"secrequestbodyinmemorylimit":    c07Num,
-	"secrequestbodyjsondepthlimit":   {valid: []string{"1024", "1", "2", "5", "4000"}, odd: []string{"", "0", "-1", "x"}},
+	"secrequestbodyjsondepthlimit":   {valid: []string{"1024", "1", "2", "5", "2000"}, odd: []string{"", "0", "-1", "x"}},
 	"secrequestbodylimit":            {valid: []string{"13107200", "1", "7", "64", "1000", "1073741824"}, odd: []string{"", "0", "-1", "x", "1073741825", "9223372036854775807", "99999999999999999999"}},
 	"secrequestbodynofileslimit":     c07Num,
 	"secresponsebodylimit":           {valid: []string{"524288", "1", "7", "64", "1000", "1073741824"}, odd: []string{"", "0", "-1", "x", "1073741825", "9223372036854775807"}},
